@@ -90,7 +90,7 @@ func genC12(tier string, run int, r *simcore.Rand) *harness.Plan {
 			}
 		}
 	}
-	kinds := []string{sim.FErr, sim.FErr, sim.FErrAfter, sim.FWrongSize, sim.FSlow}
+	kinds := []string{sim.FErr, sim.FErr, sim.FErrAfter, sim.FWrongSize, sim.FSlow, sim.FShortStore}
 	var ops []c12Op
 	all := make([]int, len(specs))
 	for i := range all {
@@ -212,6 +212,21 @@ func execC12(rc *harness.RunCtx, p *harness.Plan, cfg *Config, rawOps []c12Op) *
 		}
 		return
 	}
+	// divergent: some replica keeps a copy of the ref with other bytes (a
+	// misbehaving replica stored a short copy): which copy a read returns is
+	// the replica's business; exactly-once still holds
+	divergent := func(ref string) bool {
+		b := s.byRef(ref)
+		if b == nil {
+			return false
+		}
+		for _, nd := range append(append([]*sim.Node{}, root.Kids...), rd...) {
+			if d, ok := s.world.Store(nd.Name).Get(ref); ok && len(d) != len(b.Data) {
+				return true
+			}
+		}
+		return false
+	}
 	for i, op := range rawOps {
 		for _, bi := range op.B {
 			if bi >= len(s.pool) {
@@ -317,7 +332,9 @@ func execC12(rc *harness.RunCtx, p *harness.Plan, cfg *Config, rawOps []c12Op) *
 				if !anyHeld {
 					return fail(i, "fetch-invented", "fetch succeeded although no read replica holds the blob")
 				}
-				if res.ReadErr != nil || !bytes.Equal(res.Data, b.Data) || int(res.Size) != len(b.Data) {
+				if divergent(b.Ref.String()) {
+					out.Reached["read-of-divergent-copies"]++
+				} else if res.ReadErr != nil || !bytes.Equal(res.Data, b.Data) || int(res.Size) != len(b.Data) {
 					return fail(i, "fetch-wrong-bytes", fmt.Sprintf("fetch returned %d bytes (size %d, read error %v), want %d", len(res.Data), res.Size, res.ReadErr, len(b.Data)))
 				}
 			} else if want {
@@ -347,6 +364,9 @@ func execC12(rc *harness.RunCtx, p *harness.Plan, cfg *Config, rawOps []c12Op) *
 			}
 			for _, sb := range res.Stat {
 				b := s.byRef(sb.Ref.String())
+				if b != nil && divergent(sb.Ref.String()) {
+					continue
+				}
 				if b == nil || int(sb.Size) != len(b.Data) {
 					return fail(i, "stat-wrong-size", fmt.Sprintf("stat reported %v", sb))
 				}
